@@ -89,3 +89,19 @@ Qed.
 Print Assumptions checked_read_same_crc.
 Print Assumptions load_validates_all.
 Print Assumptions damaged_value_rejected.
+
+(* ---- the zero checksum is the format's "no checksum" marker (empty and nil values, legacy tables), but it is also
+   the CRC-64/ISO of some non-empty values: for those a per-read check accepts ANY bytes (finding F-C09a) *)
+Definition crc0_value : bytes := [0xf4; 0x42; 0x2f; 0xf4; 0x42; 0x2f; 0xf4; 0x12].
+
+Lemma crc0_value_facts : crc0_value <> [] /\ crc64iso crc0_value = 0.
+Proof. split; [discriminate | vm_compute; reflexivity]. Qed.
+
+Lemma zero_checksum_value_unprotected (r : reader) (off : N) (v' : option bytes) :
+  read_at (r_cd r) (r_data r) off = Ok v' ->
+  get_value_at r off (crc64iso crc0_value) false = Ok v'.
+Proof.
+  intros H. unfold get_value_at. rewrite H.
+  replace (crc64iso crc0_value) with 0 by (symmetry; apply crc0_value_facts).
+  destruct (crc64iso (payload_of v') =? 0); reflexivity.
+Qed.
